@@ -284,6 +284,12 @@ func allLeaves() []*leaf {
 				return tb(!has(b.attrsAt(time.Time{})["camliDefVis"], "hide"))
 			})},
 
+		{name: "skipHiddenAt30", family: "P", corpusOnly: true, // At needs a corpus; p4 is hidden only from T(42) on
+			build: func(w *W) *search.Constraint {
+				return pnC(search.PermanodeConstraint{SkipHidden: true, At: world.T(30)})
+			},
+			model: pnModel(func(w *W, b *mblob) tri { return tb(!has(b.attrsAt(world.T(30))["camliDefVis"], "hide")) })},
+
 		{name: "fName", family: "F",
 			build: func(w *W) *search.Constraint {
 				return &search.Constraint{File: &search.FileConstraint{FileName: &search.StringConstraint{Equals: "alpha.txt"}}}
